@@ -451,7 +451,10 @@ func tryConstEval(kind ExpressionKind, arena []Expression, module *Module) (Expr
 	case ExprBinary:
 		leftVal, leftLit, leftOk := arenaExprAsFloat(arena, module, k.Left)
 		rightVal, _, rightOk := arenaExprAsFloat(arena, module, k.Right)
-		if leftOk && rightOk {
+		// Fold only the operators EvalBinaryFloat implements; for any other
+		// operator it returns 0, and a comparison would get the operand type
+		// instead of bool. Unfolded expressions stay valid run-time code.
+		if leftOk && rightOk && isFoldableArithmeticOp(k.Op) {
 			result := EvalBinaryFloat(k.Op, leftVal, rightVal)
 			return makeLiteralFromProto(leftLit, result), true
 		}
@@ -480,6 +483,15 @@ func tryConstEval(kind ExpressionKind, arena []Expression, module *Module) (Expr
 		}
 	}
 	return nil, false
+}
+
+// isFoldableArithmeticOp reports whether EvalBinaryFloat evaluates op.
+func isFoldableArithmeticOp(op BinaryOperator) bool {
+	switch op {
+	case BinaryAdd, BinarySubtract, BinaryMultiply, BinaryDivide:
+		return true
+	}
+	return false
 }
 
 // arenaExprAsFloat resolves an expression in the new arena to a float64 value.
